@@ -116,8 +116,9 @@ def assign_forms(rng, case, preserve=False):
             f = "F64" if r < 0.45 else (rng.choice(accepted_pool) if r < 0.8 else rng.choice(pool))
         else:
             f = choose_array_form(rng, 0.25, pool)
-            if kind == "svd" and arg == "W" and f in ("F32", "U8", "FBool") and "near_dup_col" in case["tags"]:
-                f = "F64"    # invert_svd works in single precision on a float32 matrix: ill-conditioned ones are not asked of it
+            if kind == "svd" and arg == "W" and f in ("F32", "U8", "FBool") and ("near_dup_col" in case["tags"] or "scaled" in case["tags"]):
+                f = "F64"    # invert_svd works in single precision on such a matrix: ill-conditioned systems, and scaled ones whose
+                             # solution leaves the float32 range (it returns inf there), are not asked of it
         if f == "F32" and arg == "L" and "alpha" in case:
             al = np.abs(case["alpha"] * a)
             if not np.all((al == 0) | ((al > 1e-30) & (al < 1e30))):
@@ -146,7 +147,8 @@ def assign_forms(rng, case, preserve=False):
             if g in (0.0, 1.0):
                 pool_g += ["GPyBool", "GPyBool"]
             f = rng.choice(pool_g)
-            g32 = float(np.float32(g))
+            with np.errstate(over="ignore"):
+                g32 = float(np.float32(g))
             if f == "GNpFloat32" and not np.isfinite(g32):
                 f = "GPyFloat"
             case["guess"] = cast_scalar(g, {"GNpFloat32": "SNpFloat32"}.get(f, "SPyFloat"))
@@ -162,6 +164,7 @@ def assign_forms(rng, case, preserve=False):
         forms["alpha"] = f
     # how the call is written: positional / keyword arguments, optional arguments left to their documented defaults,
     # through the package re-export or the defining module
+    case["variant"] = rng.randrange(3)         # which strided / negative-stride / transposed layout FStrided means for this case
     case["call"] = rng.choice(["mixed", "mixed", "positional", "keywords", "defaults", "defaults"])
     case["via_module"] = rng.random() < 0.3
     case["tags"].add("call_" + case["call"])
@@ -241,3 +244,15 @@ def call_with_style(fn, style, names, values, required, defaults, case_values):
                                                and float(cv) == float(dv)):
                 del kw[k]
     return fn(*[values[k] for k in names[:required]], **kw)
+
+
+def omitted_args(case):
+    """optional arguments that the 'defaults' call style leaves out (their value equals the documented default)"""
+    if case.get("call") != "defaults":
+        return set()
+    out = set()
+    for name, key, dv in (("relaxation", "relax", 1.0), ("conv_tol", "tol", 1.0E-4), ("beta_laplace", "beta", 0.01),
+                          ("max_iterations", "maxit", 250), ("alpha", "alpha", 0.01)):
+        if key in case and case[key] is not None and float(case[key]) == dv:
+            out.add(name)
+    return out
